@@ -474,4 +474,34 @@ def ZOp.apply (z : Zone) : ZOp → Zone
 
 def runZone (ops : List ZOp) : Zone := ops.foldl ZOp.apply Zone.empty
 
+/-- one operation of a `MemoryMap` history (a write that raises `MemoryError` leaves the map
+    unchanged; `shift` is `MemoryZone.shift` applied to one zone of the map). -/
+inductive MOp
+  | write (a : Addr) (v : Val) (en : Endian)
+  | restruct
+  | copy
+  | shift (k : ZKey) (off : Int)
+  | merge (other : List (Addr × Val × Endian))   -- merge with the map built by these writes
+  deriving Repr, Inhabited
+
+def MMap.writeD (mm : MMap) (a : Addr) (v : Val) (en : Endian) : MMap :=
+  match mm.write a v en with
+  | .ok mm' => mm'
+  | .error _ => mm
+
+def writesMMap (ws : List (Addr × Val × Endian)) : MMap :=
+  ws.foldl (fun mm w => mm.writeD w.1 w.2.1 w.2.2) MMap.empty
+
+def MOp.apply (mm : MMap) : MOp → MMap
+  | .write a v en => mm.writeD a v en
+  | .restruct => mm.restruct
+  | .copy => mm.copy
+  | .shift k off =>
+    match mm.getZone k with
+    | some z => mm.setZone k (z.shift off)
+    | none => mm
+  | .merge ws => mm.merge (writesMMap ws)
+
+def runMMap (ops : List MOp) : MMap := ops.foldl MOp.apply MMap.empty
+
 end Amoco.Memory
